@@ -130,13 +130,15 @@ func execMR(p mrProg, c *hx.Case) error {
 		}
 	})
 	defer verifhook.SetTuner(nil)
+	trk := hx.TrackDBs()
+	defer trk.Close()
 	fs := storage.NewMemoryFilesystem()
 	var keep []*dkv.DB // dead processes run no cleanups; live ones are kept for the whole case anyway
 	defer func() {
 		// nothing of this case may still run when its databases become garbage
 		// (their cleanups delete files a late background compaction would read)
 		for _, db := range keep {
-			hx.WaitTasks(db.WaitOnTasks)
+			trk.Wait(db, db.WaitOnTasks)
 		}
 		runtime.KeepAlive(keep)
 	}()
@@ -232,7 +234,7 @@ func execMR(p mrProg, c *hx.Case) error {
 			}
 			// the probe is a reader that goes away again: nothing of it may still run
 			// when the database it was opened from gives these files up
-			if err := hx.WaitTasks(pdb.WaitOnTasks); err != nil {
+			if err := trk.Wait(pdb, pdb.WaitOnTasks); err != nil {
 				return hx.Errf("%s: background task of a database restored from retained checkpoint %d of %s: %v", when, id, d.dir, err)
 			}
 			checked++
@@ -253,7 +255,7 @@ func execMR(p mrProg, c *hx.Case) error {
 			d.db.Delete(k)
 			delete(model, string(k))
 		case "wait":
-			if err := hx.WaitTasks(d.db.WaitOnTasks); err != nil {
+			if err := trk.Wait(d.db, d.db.WaitOnTasks); err != nil {
 				return hx.Errf("background task failed: %v", err)
 			}
 		case "ckpt":
@@ -278,7 +280,7 @@ func execMR(p mrProg, c *hx.Case) error {
 					}
 					walsDropped += len(dropped)
 				}
-				if err := hx.WaitTasks(d.db.WaitOnTasks); err != nil {
+				if err := trk.Wait(d.db, d.db.WaitOnTasks); err != nil {
 					return hx.Errf("background task failed: %v", err)
 				}
 			}
@@ -321,7 +323,7 @@ func execMR(p mrProg, c *hx.Case) error {
 		if err != nil {
 			return hx.Errf("checkpoint %d of old database %d: %v", final, i, err)
 		}
-		if err := hx.WaitTasks(d.db.WaitOnTasks); err != nil {
+		if err := trk.Wait(d.db, d.db.WaitOnTasks); err != nil {
 			return hx.Errf("background task failed: %v", err)
 		}
 		handles[i] = h
@@ -398,7 +400,7 @@ func execMR(p mrProg, c *hx.Case) error {
 	}
 	// the live databases still answer every read
 	for _, d := range news {
-		if err := hx.WaitTasks(d.db.WaitOnTasks); err != nil {
+		if err := trk.Wait(d.db, d.db.WaitOnTasks); err != nil {
 			return hx.Errf("background task failed: %v", err)
 		}
 		for g := d.r.Start; g < d.r.End; g++ {
